@@ -130,7 +130,64 @@ async fn episode(p: &EpParams) -> EpReport {
         let t = rng.pick(&topics).clone();
         let s = rng.pick(&subs).clone();
         let step: String;
-        match rng.below(17) {
+        match rng.below(19) {
+            17 | 18 => {
+                // a control-plane request abandoned after a few scheduler turns: whichever way it
+                // went, the views must agree afterwards (resolved by observation)
+                let which = rng.below(3);
+                let k = rng.below(5);
+                let cx = Cx::new(&w, 7);
+                let (tp, sp) = (t.clone(), s.clone());
+                let applicable = match which {
+                    0 => seq.m.topics.contains_key(&t),
+                    1 => seq.m.subs.contains_key(&s),
+                    _ => !seq.m.subs.contains_key(&s) && seq.m.topics.contains_key(&t),
+                };
+                if !applicable {
+                    continue;
+                }
+                let task = tokio::spawn(async move {
+                    match which {
+                        0 => {
+                            let _ = cx.delete_topic(&tp).await;
+                        }
+                        1 => {
+                            let _ = cx.delete_sub(&sp).await;
+                        }
+                        _ => {
+                            let _ = cx.create_sub(&sp, &tp, 10).await;
+                        }
+                    }
+                });
+                for _ in 0..k {
+                    tokio::task::yield_now().await;
+                }
+                task.abort();
+                let _ = task.await;
+                w.settle().await;
+                match which {
+                    0 => {
+                        if seq.cx.get_topic(&t).await.is_err() {
+                            seq.m.delete_topic(&t);
+                            deleted_names.insert(t.clone());
+                        }
+                    }
+                    1 => {
+                        if seq.cx.get_sub(&s).await.is_err() {
+                            seq.m.delete_sub(&s);
+                            deleted_names.insert(s.clone());
+                        }
+                    }
+                    _ => {
+                        if seq.cx.get_sub(&s).await.is_ok() {
+                            seq.m.create_sub(&s, &t, 10, None);
+                        }
+                    }
+                }
+                seq.steps.push(format!("abandoned {} after {} turns", ["delete_topic", "delete_sub", "create_sub"][which as usize], k));
+                rep.inc("abandoned_control_requests");
+                step = format!("abandoned{}", which);
+            }
             16 => {
                 // CreateSubscription racing a DeleteSubscription of the same (not yet existing) name:
                 // whatever the outcome, the topic's list and the set of live subscriptions must agree
